@@ -251,9 +251,9 @@ CanonicalPruned(c, f) == KeysOfI(c.tanc[IdxOf(PruneAnchor(f))])
 
 Remove(S) == SelectSeq(nodes, LAMBDA n : Key(n) \notin S)
 \* retained blocks that lose their fork-choice parent when S is dropped; after a complete prune the blocks built
-\* on the anchor root stay attached (to the anchor)
-DetachedBy(S, complete, anchorRoot) ==
+\* on the anchor root after the anchor slot stay attached (to the anchor <<root, slot>>)
+DetachedBy(S, complete, anchor) ==
     {Key(nodes[i]) : i \in {j \in Idx : /\ Key(nodes[j]) \notin S /\ IsBlock(nodes[j])
                                         /\ FParKey(nodes[j]) \in S
-                                        /\ ~(complete /\ nodes[j].parent = anchorRoot)}}
+                                        /\ ~(complete /\ nodes[j].parent = anchor[1] /\ nodes[j].slot > anchor[2])}}
 =============================================================================
